@@ -39,8 +39,8 @@ type pipeCase struct {
 	End string `json:"end"`
 	// Abandon (cancel ends only): after the cancel nobody reads any more; the pipe goroutine has to end all the
 	// same (decided at bubble exit), whatever is still buffered.
-	Abandon bool `json:"abandon"`
-	Noise []int  `json:"noise"` // Gosched counts, used round robin
+	Abandon bool  `json:"abandon"`
+	Noise   []int `json:"noise"` // Gosched counts, used round robin
 }
 
 var (
@@ -108,7 +108,8 @@ func pipeOracle(c pipeCase) (evid.Info, error) {
 	}
 	total := 0
 	for _, n := range c.Writers {
-		if n < 0 || n >= 1000 {
+		// (value j of writer w is w*1000+j: several writers need j < 1000; a single writer may submit a long run)
+		if n < 0 || (n >= 1000 && len(c.Writers) > 1) || n > 300000 {
 			return evid.Info{Skip: "bad value count"}, nil
 		}
 		total += n
@@ -309,6 +310,9 @@ func pipeOracle(c pipeCase) (evid.Info, error) {
 	seen := map[int]bool{}
 	for _, v := range received {
 		w, j := v/1000, v%1000
+		if len(c.Writers) == 1 {
+			w, j = 0, v // a single writer's values are not folded
+		}
 		if w < 0 || w >= len(c.Writers) || j >= c.Writers[w] {
 			return evid.Info{}, fmt.Errorf("received value %d that was never submitted", v)
 		}
